@@ -23,7 +23,7 @@ func init() {
 		Word32:   true,
 		DebugTag: true,
 		Level:    "exploration",
-		Rule: "E1 bounded-exhaustive enumeration: every height h in [0,32] × every length l ≤ min(h,L) × every l-bit prefix: NewPath/PathLen/PathHeight/PathBits/PathMask/PathStr against the prefix as a '0'/'1' string; and every ordered pair of such nodes of equal height: word order == string order (= pre-order: ancestor first, left before right). Lengths above L (up to 32): every height × every length L < l ≤ h × 9 prefix patterns (zeros, ones, lowest / highest bit only, both alternations, ones but the highest / lowest bit, a fixed constant), same observations, and the order of every pair of these nodes of equal height. " +
+		Rule: "E1 bounded-exhaustive enumeration: every height h in [0,32] × every length l ≤ min(h,L) × every l-bit prefix: NewPath/PathLen/PathHeight/PathBits/PathMask/PathStr against the prefix as a '0'/'1' string; and every ordered pair of such nodes of equal height: word order == string order (= pre-order: ancestor first, left before right). First of all, in ONE goroutine and with the heights INNERMOST (for every length ≤ 8 and searching-bits word < 2^12: every height at which they form a path, ascending then descending), so that consecutive path words have equal upper halves and lengths and differ in the height only. Lengths above L (up to 32): every height × every length L < l ≤ h × 9 prefix patterns (zeros, ones, lowest / highest bit only, both alternations, ones but the highest / lowest bit, a fixed constant), same observations, and the order of every pair of these nodes of equal height. " +
 			"A case is one node or one pair; non-trivial when l ≥ 1 (pairs: both non-root and different).",
 		Assumptions: []string{"prefix lengths above L are covered by 9 patterns per (height, length), not completely"},
 		Run:         c10Run,
@@ -66,6 +66,7 @@ func c10Want(prefix uint64, l, h int) c10Obs {
 func c10Run(c *mc.Ctx) {
 	L := c.Pick(10, 12)
 	c.Set("max_prefix_length", L)
+	c10Transposed(c) // first, alone: nothing else has called the library yet
 	c10Long(c, L)
 	c.Par(33, func(h int) {
 		type node struct {
@@ -113,6 +114,46 @@ func c10Run(c *mc.Ctx) {
 			c.ForceSample(map[string]interface{}{"height": h, "node": n.str, "word": fmt.Sprintf("%#x", n.word), "pairs_checked": len(nodes)})
 		}
 	})
+}
+
+// c10Transposed: ONE goroutine, heights INNERMOST: for every length l ≤ 8 and every searching-bits word v < 2^12,
+// the node observations at every height at which (v, l) is a well-formed path, ascending then descending.
+// Consecutive calls then differ in the height only (equal upper half of the path word, equal length): anything remembered from the previous call under a key
+// that leaves the height out shows here, deterministically (the main enumeration runs 33 goroutines at
+// once and would meet such a pair only by chance).
+func c10Transposed(c *mc.Ctx) {
+	var evals int64
+	for l := 1; l <= 8; l++ {
+		for v := uint64(1); v < 1<<12; v++ {
+			for _, h := range c10HeightsFor(v, l) {
+				prefix := v >> uint(h-l)
+				got, want := c10Observe(prefix, l, h), c10Want(prefix, l, h)
+				if got != want {
+					c.Fail(4<<50|int64(l)<<40|int64(v)<<8|int64(h), "transposed", "node/heights-innermost", c10Case{Height: h, A: want.Str, B: fmt.Sprint(v)}, fmt.Sprintf("%+v", got), fmt.Sprintf("%+v", want))
+				}
+				evals++
+			}
+		}
+	}
+	c.Count(evals, evals)
+	c.Expect(evals)
+	c.Add("nodes_observed_with_heights_innermost", evals)
+}
+
+// c10HeightsFor lists, ascending then descending, the heights h in [l,32] at which the searching-bits word v
+// denotes a well-formed path of length l (v fits h bits and its low h-l bits are 0): the paths
+// NewPath(v, l, h) have EQUAL upper halves and equal lengths and differ in their height only.
+func c10HeightsFor(v uint64, l int) []int {
+	var hs []int
+	for h := l; h <= 32; h++ {
+		if v>>uint(h) == 0 && v&(uint64(1)<<uint(h-l)-1) == 0 {
+			hs = append(hs, h)
+		}
+	}
+	for i := len(hs) - 2; i >= 0; i-- {
+		hs = append(hs, hs[i])
+	}
+	return hs
 }
 
 // c10Long: prefix lengths above L (up to 32), where complete enumeration is out of
@@ -163,6 +204,18 @@ func c10Parse(s string) (uint64, int) { return ref.BitsVal(s), len(s) }
 func c10Judge(kind string, cs c10Case) (got, want string) {
 	pa, la := c10Parse(cs.A)
 	switch kind {
+	case "transposed":
+		// the case is the sweep over the heights for this searching-bits word (cs.B) and length, up to this height
+		var v uint64
+		fmt.Sscan(cs.B, &v)
+		var g, w c10Obs
+		for _, h := range c10HeightsFor(v, la) {
+			g, w = c10Observe(v>>uint(h-la), la, h), c10Want(v>>uint(h-la), la, h)
+			if h == cs.Height && g != w {
+				break
+			}
+		}
+		return fmt.Sprintf("%+v", g), fmt.Sprintf("%+v", w)
 	case "node":
 		g, w := c10Observe(pa, la, cs.Height), c10Want(pa, la, cs.Height)
 		if la == 0 {
